@@ -78,7 +78,7 @@ pub open spec fn union_from_vec_post(types: Seq<LuaType>, r: LuaUnionType) -> bo
 }
 /// postcondition of LuaType::from_vec for union-free input
 pub open spec fn from_vec_post(types: Seq<LuaType>, r: LuaType) -> bool {
-    eq_obeys() && no_unions(types) && eq_regular(types) && dup_coherent(types) && types.len() >= 1 ==> union_of(r, dedupe(types))
+    batch_hyp(types) && types.len() >= 1 ==> union_of(r, dedupe(types))
 }
 
 /// distinct basic types are different variants: LuaType::eq says false; a basic type is never equal to a non-basic one
@@ -167,7 +167,9 @@ pub proof fn lemma_dedupe_props(ts: Seq<LuaType>)
         }
     }
 }
-pub open spec fn batch_hyp(ts: Seq<LuaType>) -> bool { eq_obeys() && no_unions(ts) && eq_regular(ts) && dup_coherent(ts) }
+/// what LuaType::from_vec needs to be the union of the distinct members: `dedupe_hyp` is generated from the function's text
+/// (hash-set dedupe: dup_coherent; `==` scan: nothing)
+pub open spec fn batch_hyp(ts: Seq<LuaType>) -> bool { eq_obeys() && no_unions(ts) && eq_regular(ts) && dedupe_hyp(ts) }
 pub proof fn lemma_regular_take(ts: Seq<LuaType>, k: int)
     requires eq_regular(ts), 0 <= k <= ts.len(),
     ensures eq_regular(ts.take(k)),
@@ -197,6 +199,28 @@ pub proof fn lemma_dedupe_step(ts: Seq<LuaType>, k: int)
         let j = choose|j: int| 0 <= j < p.len() && p[j] == d[i];
         assert(ts[j] == d[i]);
     }
+}
+/// one step of the `==`-scan dedupe (repaired LuaType::from_vec): `result_types.contains(&x)` compares stored == x, dedupe's `seen` x == stored
+pub proof fn lemma_dedupe_scan_step(ts: Seq<LuaType>, k: int)
+    requires eq_regular(ts), 0 <= k < ts.len(),
+    ensures
+        contains_eq(dedupe(ts.take(k)), ts[k]) == seen(dedupe(ts.take(k)), ts[k]),
+        dedupe(ts.take(k + 1)) == (if seen(dedupe(ts.take(k)), ts[k]) { dedupe(ts.take(k)) } else { dedupe(ts.take(k)).push(ts[k]) }),
+{
+    let p = ts.take(k);
+    lemma_regular_take(ts, k);
+    lemma_dedupe_props(p);
+    assert(ts.take(k + 1) == p.push(ts[k]));
+    lemma_dedupe_push(p, ts[k]);
+    let d = dedupe(p);
+    assert(ts.contains(ts[k]));
+    assert forall|i: int| 0 <= i < d.len() implies ts.contains(#[trigger] d[i]) by {
+        assert(p.contains(d[i]));
+        let j = choose|j: int| 0 <= j < p.len() && p[j] == d[i];
+        assert(ts[j] == d[i]);
+    }
+    if contains_eq(d, ts[k]) { let i = choose|i: int| 0 <= i < d.len() && teq(#[trigger] d[i], ts[k]); assert(teq(ts[k], d[i])); }
+    if seen(d, ts[k]) { let i = choose|i: int| 0 <= i < d.len() && teq(ts[k], #[trigger] d[i]); assert(teq(d[i], ts[k])); }
 }
 pub proof fn lemma_dedupe_single(ts: Seq<LuaType>)
     requires ts.len() == 1,
